@@ -7,10 +7,16 @@ a second `pack()`, `==` against a deep copy taken before packing, and octets / `
 built object with the same final values. The same line goes through the Lean state machines of
 `Model/Mutation.lean` (whose observations are what the C11 theorems prescribe).
 
+Two further families use the same op lines: "same-id-other-width" (setter arguments that compare equal under `==` to the
+value they replace but encode differently - entity IDs holding the same number in 1/2/4/8 octets) and "bystander" (case key
+"twin", ignored by the model op: further objects of the class, built from the one PduConfig object the caller holds, exist
+while the setters are called on the first object and must stay what they were - see `Bystanders`).
+
 KINDS is a table: adding a kind = one `Kind` subclass + one generator entry (+ one `Kind` record in Ops/Mutation.lean).
 """
 import copy
 import itertools
+import json
 import random
 import zlib
 from typing import Any, Dict, Iterator, List, Optional
@@ -101,7 +107,20 @@ class Kind:
     op = ""
     modelled = True          # a Lean state machine exists (else: implementation-side self-checks only)
 
-    def build(self, a): raise NotImplementedError
+    shares_conf = False      # the constructor takes a caller-supplied PduConfig (CFDP classes)
+
+    def ctor(self, a, conf=None):
+        """the object straight from the constructor (`conf`: the caller's PduConfig object to hand in, CFDP classes only)"""
+        raise NotImplementedError
+
+    def decoded(self, a, obj):
+        """the object a decoder returns for what `obj` packs"""
+        return obj
+
+    def build(self, a, conf=None):
+        p = self.ctor(a, conf)
+        return self.decoded(a, p) if a.get("via_unpack") else p
+
     def apply(self, obj, s): raise NotImplementedError
     def reported(self, obj) -> int: return int(obj.packet_len)
     def packer(self, obj): return obj.pack                     # the encoder call itself (returns what the library returns)
@@ -116,9 +135,8 @@ class Kind:
 class TcKind(Kind):
     op = "c11_tc"
 
-    def build(self, a):
-        t = c02._tc(a)
-        return PusTc.unpack(bytes(t.pack())) if a["via_unpack"] else t
+    def ctor(self, a, conf=None): return c02._tc(a)
+    def decoded(self, a, t): return PusTc.unpack(bytes(t.pack()))
 
     def apply(self, t, s): t.app_data = _data(s["data"])
     def len_field(self, t, raw): return (raw[4] << 8) | raw[5]
@@ -133,9 +151,8 @@ class TcKind(Kind):
 class TmKind(Kind):
     op = "c11_tm"
 
-    def build(self, a):
-        t = c03._tm(a)
-        return PusTm.unpack(bytes(t.pack()), len(unhx(a["timestamp"]))) if a["via_unpack"] else t
+    def ctor(self, a, conf=None): return c03._tm(a)
+    def decoded(self, a, t): return PusTm.unpack(bytes(t.pack()), len(unhx(a["timestamp"])))
 
     def apply(self, t, s): t.tm_data = _data(s["data"])
     def len_field(self, t, raw): return (raw[4] << 8) | raw[5]
@@ -151,6 +168,10 @@ class TmKind(Kind):
 
 
 class CfdpKind(Kind):
+    shares_conf = True
+    cls: Any = None
+
+    def decoded(self, a, p): return self.cls.unpack(bytes(p.pack()))
     def len_field(self, p, raw): return _cfdp_len_field(raw)
     def expected_len_field(self, p, raw): return len(raw) - int(p.pdu_header.header_len)
     def extra(self, p): return _hdr_extra(p.pdu_header)
@@ -167,10 +188,11 @@ def _seglist(v):
 class NakKind(CfdpKind):
     op = "c11_nak"
 
-    def build(self, a):
-        p = NakPdu(pdu_conf=c06._conf(a), start_of_scope=a["start"], end_of_scope=a["end"],
-                   segment_requests=_seglist(a["segs"]))
-        return NakPdu.unpack(bytes(p.pack())) if a["via_unpack"] else p
+    cls = NakPdu
+
+    def ctor(self, a, conf=None):
+        return NakPdu(pdu_conf=c06._conf(a) if conf is None else conf, start_of_scope=a["start"], end_of_scope=a["end"],
+                      segment_requests=_seglist(a["segs"]))
 
     def apply(self, p, s):
         if s["set"] == "segs":
@@ -190,9 +212,10 @@ class NakKind(CfdpKind):
 class KaKind(CfdpKind):
     op = "c11_ka"
 
-    def build(self, a):
-        p = KeepAlivePdu(pdu_conf=c06._conf(a), progress=a["progress"])
-        return KeepAlivePdu.unpack(bytes(p.pack())) if a["via_unpack"] else p
+    cls = KeepAlivePdu
+
+    def ctor(self, a, conf=None):
+        return KeepAlivePdu(pdu_conf=c06._conf(a) if conf is None else conf, progress=a["progress"])
 
     def apply(self, p, s): p.file_flag = LargeFileFlag(s["large"])
     def fresh(self, p): return KeepAlivePdu(_conf_of(p.pdu_header), p.progress)
@@ -207,10 +230,11 @@ def _meta(s) -> Optional[SegmentMetadata]:
 class FdKind(CfdpKind):
     op = "c11_fd"
 
-    def build(self, a):
-        p = FileDataPdu(pdu_conf=c06._conf(a),
-                        params=FileDataParams(file_data=_data(a["data"]), offset=a["offset"], segment_metadata=_meta(a)))
-        return FileDataPdu.unpack(bytes(p.pack())) if a["via_unpack"] else p
+    cls = FileDataPdu
+
+    def ctor(self, a, conf=None):
+        return FileDataPdu(pdu_conf=c06._conf(a) if conf is None else conf,
+                           params=FileDataParams(file_data=_data(a["data"]), offset=a["offset"], segment_metadata=_meta(a)))
 
     def apply(self, p, s):
         if s["set"] == "data":
@@ -234,7 +258,7 @@ class FdKind(CfdpKind):
 class FrameKind(Kind):
     op = "c11_frame"
 
-    def build(self, a): return c17._frame(a)
+    def ctor(self, a, conf=None): return c17._frame(a)
 
     def apply(self, f, s):
         if s["set"] == "tfdz":
@@ -283,9 +307,9 @@ def _fault_len(t) -> Optional[int]:
 class EofKind(CfdpKind):
     op = "c11_eof"
 
-    def build(self, a):
-        p = c6v._eof(a)
-        return EofPdu.unpack(bytes(p.pack())) if a["via_unpack"] else p
+    cls = EofPdu
+
+    def ctor(self, a, conf=None): return c6v._eof(a, conf)
 
     def apply(self, p, s): p.fault_location = c6v._fault(s["v"])
 
@@ -303,9 +327,9 @@ class EofKind(CfdpKind):
 class FinishedKind(CfdpKind):
     op = "c11_fin"
 
-    def build(self, a):
-        p = c6v._fin(a)
-        return FinishedPdu.unpack(bytes(p.pack())) if a["via_unpack"] else p
+    cls = FinishedPdu
+
+    def ctor(self, a, conf=None): return c6v._fin(a, conf)
 
     def apply(self, p, s):
         if s["set"] == "responses":
@@ -339,9 +363,9 @@ def _lv_len(name: Optional[str]) -> int:
 class MetadataKind(CfdpKind):
     op = "c11_md"
 
-    def build(self, a):
-        p = c6v._md(a)
-        return MetadataPdu.unpack(bytes(p.pack())) if a["via_unpack"] else p
+    cls = MetadataPdu
+
+    def ctor(self, a, conf=None): return c6v._md(a, conf)
 
     def apply(self, p, s):
         if s["set"] == "options":
@@ -362,7 +386,8 @@ class MetadataKind(CfdpKind):
                                 p.source_file_name, p.dest_file_name)
         o = p.options
         return MetadataPdu(_conf_of(p.pdu_header), params,
-                           None if o is None else [CfdpTlv(t.tlv_type, bytes(t.value)) for t in o])
+                           None if o is None else [EntityIdTlv(bytes(t.value)) if isinstance(t, EntityIdTlv)
+                                                   else CfdpTlv(t.tlv_type, bytes(t.value)) for t in o])
 
 
 KINDS: Dict[str, Kind] = {
@@ -433,9 +458,65 @@ def _build(thunk, what: str):
         raise ConstructorRefused(f"{what} refused arguments of the documented domain: {type(e).__name__}: {e}")
 
 
+def _obs_diff(x: Dict[str, Any], y: Dict[str, Any]) -> str:
+    ks = sorted(k for k in set(x) | set(y) if x.get(k) != y.get(k))
+    return ", ".join(f"{k}: {json.dumps(x.get(k))[:90]} -> {json.dumps(y.get(k))[:90]}" for k in ks)
+
+
+class Bystanders:
+    """Further objects of the same class that nobody calls a setter on (case key "twin": "before" | "after" | "both" says
+    whether they are built before or after the object under test). CFDP classes: every object is built from the ONE
+    PduConfig object the caller holds (constructors are documented to leave it alone, so programs hand the same object
+    to every PDU of a transaction); parameter objects (params dataclasses, lists, TLVs) are separate for every object.
+    The property at (bystander, empty setter history): after every setter call on the OTHER object its reported length is
+    still the number of octets it packs, the length field is right, and the whole observation (octets included) is what
+    it was - the state machines of the model are per object. The caller's PduConfig keeps its values throughout."""
+
+    def __init__(self, kind: Kind, a):
+        self.kind, self.a = kind, a
+        self.conf = _build(lambda: c06._conf(a), "PduConfig") if kind.shares_conf else None
+        self.conf0 = None if self.conf is None else _snap_conf(self.conf)
+        self.others: List[Any] = []       # (label, object, first observation)
+
+    def make(self, label: str):
+        o = _build(lambda: self.kind.ctor(self.a, self.conf), "constructor")
+        self.others.append([label, o, None])
+
+    def main(self):
+        return _build(lambda: self.kind.build(self.a, self.conf), "constructor / decoder")
+
+    def _where(self, label: str, when: str) -> str:
+        shared = "from the same caller-supplied PduConfig object" if self.conf is not None else "from equal arguments"
+        return f"a second object of the class built {label} the first one {shared}, never modified; {when}"
+
+    def check(self, when: str, what: str):
+        for rec in self.others:
+            label, o, first = rec
+            now = _obs(self.kind, o, None, self._where(label, when))
+            if first is None:
+                rec[2] = now
+            elif now != first:
+                raise SelfCheckFailure(f"{what} changed {self._where(label, when)}: {_obs_diff(first, now)}")
+        if self.conf is not None and _snap_conf(self.conf) != self.conf0:
+            raise SelfCheckFailure(f"{what} modified the PduConfig object the caller passed to the constructor: "
+                                   f"{self.conf0!r} -> {_snap_conf(self.conf)!r}")
+
+
 def _run(kind: Kind, a) -> Dict[str, Any]:
-    obj = _build(lambda: kind.build(a), "constructor / decoder")
+    twin = a.get("twin")
+    by = None
+    if twin:
+        by = Bystanders(kind, a)
+        if twin in ("before", "both"):
+            by.make("before")
+        obj = by.main()
+        if twin in ("after", "both"):
+            by.make("after")
+    else:
+        obj = _build(lambda: kind.build(a), "constructor / decoder")
     out = {"initial": _obs(kind, obj, None, "after construction", probe=True), "steps": []}
+    if by is not None:
+        by.check("after construction and pack() of all objects", "constructing / packing the objects")
     last = len(a["steps"]) - 1
     for i, s in enumerate(a["steps"]):
         err = None
@@ -445,7 +526,10 @@ def _run(kind: Kind, a) -> Dict[str, Any]:
             err = exc_category(e)
             if err not in DOCUMENTED:
                 raise
-        out["steps"].append(_obs(kind, obj, err, f"after setter call #{i + 1}" + (" (refused)" if err else ""), probe=i == last))
+        when = f"after setter call #{i + 1}" + (" (refused)" if err else "")
+        out["steps"].append(_obs(kind, obj, err, when, probe=i == last))
+        if by is not None:
+            by.check(when + " on the first object", f"setter call #{i + 1} on one object")
     return out
 
 
@@ -988,6 +1072,35 @@ GENS: Dict[str, Gen] = {"tc": TcGen(), "tm": TmGen(), "nak": NakGen(), "ka": KaG
                         "eof": EofGen(), "finished": FinishedGen(), "metadata": MetadataGen()}
 
 
+# every ordered pair of distinct entity-ID widths as consecutive elements of one closed walk
+WIDTH_CYCLE = [1, 2, 1, 4, 1, 8, 2, 4, 2, 8, 4, 8]
+WIDE_CYCLE = [2, 4, 2, 8, 4, 8]           # the same for values that need two octets
+
+
+def width_walk(rng, cycle=WIDTH_CYCLE) -> List[int]:
+    k = rng.randrange(len(cycle))
+    return [cycle[(k + i) % len(cycle)] for i in range(len(cycle) + 1)]
+
+
+def idhex(v: int, w: int) -> str:
+    return hx(v.to_bytes(w, "big"))
+
+
+def recoded_id_walks(rng) -> List[List[str]]:
+    """sequences of entity IDs that all hold the same number (`EntityIdTlv.__eq__` compares the number only) in
+    another width each time: a one-octet value through every ordered pair of 1/2/4/8 octets, a two-octet value
+    through every ordered pair of 2/4/8"""
+    v1 = rng.choice([0, 1, 5, 0x7F, 0xFF, rng.randint(0, 255)])
+    v2 = rng.choice([0x0100, 0xFFFF, rng.randint(256, 65535)])
+    return [[idhex(v1, w) for w in width_walk(rng)], [idhex(v2, w) for w in width_walk(rng, WIDE_CYCLE)]]
+
+
+def _has_big_fill(v) -> bool:
+    if isinstance(v, dict):
+        return ("fill" in v and v.get("n", 0) > 200) or any(_has_big_fill(x) for x in v.values())
+    return isinstance(v, list) and any(_has_big_fill(x) for x in v)
+
+
 def seq_case(name: str, a: Dict[str, Any], steps: List[Dict[str, Any]], tag: str) -> Case:
     kind = KINDS[name]
     op = dict(a)
@@ -1020,11 +1133,15 @@ class C11(Prop):
     exhaustive_note = ("every sequence of length 1..3 (thorough: 1..4) over a pool of 2-7 setter calls per class "
                        "(small arguments, clearing arguments and one refused oversized argument) for every class x "
                        "{CRC, large file} / {from constructor, from decoder} / construction rule; all 512 header "
-                       "configurations through the six mutable CFDP constructors for the caller's PduConfig")
+                       "configurations through the six mutable CFDP constructors for the caller's PduConfig; every ordered pair of "
+                       "entity-ID widths (same number) as consecutive EOF / Finished fault locations under every condition "
+                       "code; every pool call (NAK / Keep Alive: every pair) with bystander objects for every caller direction "
+                       "x large file flag")
     trusted_base = [
         "object identity and aliasing are outside a functional model: 'the caller's objects are not modified' is carried by "
         "the tie (value snapshots of every caller-supplied PduConfig / params dataclass / TLV list / bytes before and after "
-        "constructor and pack())",
+        "constructor and pack(); bystander objects built from the same PduConfig object re-observed after every setter call "
+        "on another object)",
         "the filestore-response TLV cache is modelled as a record of what pack() caches (no documented setter mutates a TLV "
         "object); caches inside Metadata option objects are not modelled (== against a deep copy taken before pack() is "
         "checked on the real objects)",
@@ -1092,6 +1209,10 @@ class C11(Prop):
                     n = rng.randint(1, max_len)
                     big = rng.choice([0.0, 0.05, 0.12] if thorough else [0.0, 0.0, 0.0, 0.08])
                     yield seq_case(name, a, [g.step(rng, a, big) for _ in range(n)], "random")
+        # 3b. arguments equal (==) to the value they replace, encoded differently
+        yield from self.recoded_cases(rng, thorough)
+        # 3c. the same sequences while other objects built from the same caller configuration exist
+        yield from self.twin_cases(rng, thorough)
         # 4. caller inputs: all 512 header configurations through the three modelled constructors
         for kind in ("nak", "keepalive", "filedata", "eof", "finished", "metadata"):
             for a in c06.all_confs(rng):
@@ -1102,6 +1223,92 @@ class C11(Prop):
         for _ in range(60 if thorough else 12):
             for kind in INPUT_BUILDERS:
                 yield Case({"op": "c11_inputs", "kind": kind, **self.input_args(kind, rng)}, "valid", tag=f"inputs-{kind}")
+
+    def recoded_cases(self, rng: random.Random, thorough: bool) -> Iterator[Case]:
+        """setter arguments that compare equal (==) to the value they replace but encode differently: entity IDs with the
+        same number in another width, as EOF / Finished fault location under every condition code (Finished: every code
+        that packs the fault location, and sequences that change the code in between) and inside Metadata options"""
+        fault_conds = [c for c in c06.COND_MEMBERS if c not in c6v.NO_FAULT_CONDS]
+        F = lambda h: {"set": "fault", "v": h}  # noqa
+        for name, conds in (("finished", fault_conds), ("eof", c06.COND_MEMBERS)):
+            g, fixes = GENS[name], fixes_for(name, thorough)
+            for cond in conds:
+                for fx in (fixes if thorough else [rng.choice(fixes)]):
+                    for walk in recoded_id_walks(rng):
+                        a = g.init(rng, **fx)
+                        a["cond"] = cond
+                        if rng.random() < 0.3 and not a["via_unpack"]:
+                            a["fault"] = None                  # the first value comes from a setter call too
+                            steps = [F(h) for h in walk]
+                        else:
+                            a["fault"] = walk[0]               # the first value comes from the constructor / decoder
+                            steps = [F(h) for h in walk[1:]]
+                        yield seq_case(name, a, steps, "same-id-other-width")
+        # Finished: the condition code decides whether the fault location is packed; it changes between the assignments
+        g, fixes = GENS["finished"], fixes_for("finished", thorough)
+        C = lambda c: {"set": "cond", "v": c}  # noqa
+        for fx in (fixes if thorough else rng.sample(fixes, 2)):
+            for walk in recoded_id_walks(rng):
+                a = g.init(rng, **fx)
+                off, on = rng.choice(c6v.NO_FAULT_CONDS), rng.choice(fault_conds)
+                a["cond"] = off
+                a["fault"] = None if a["via_unpack"] else walk[0]
+                steps = []
+                for i, h in enumerate(walk[1:]):
+                    steps.append(F(h))
+                    if i % 3 == 0:
+                        steps.append(C(on))
+                    elif i % 3 == 2:
+                        steps.append(C(rng.choice([off, off, rng.choice(fault_conds)])))
+                    if i == 5:
+                        steps += [F(None), F(h)]
+                yield seq_case("finished", a, steps, "same-id-other-width-cond")
+        # Metadata options: lists whose entity-ID elements compare equal to those they replace
+        g, fixes = GENS["metadata"], fixes_for("metadata", thorough)
+        E = lambda h: {"kind": "entity_id", "value": h}  # noqa
+        for fx in (fixes if thorough else rng.sample(fixes, 2)):
+            for walk in recoded_id_walks(rng):
+                a = g.init(rng, **fx)
+                other = c6v.rand_option(rng)
+                mixed = rng.random() < 0.5
+                opts = (lambda h: [other, E(h)]) if mixed else (lambda h: [E(h)])  # noqa
+                a["options"] = opts(walk[0])
+                yield seq_case("metadata", a, [{"set": "options", "v": opts(h)} for h in walk[1:]], "same-id-other-width")
+
+    def twin_cases(self, rng: random.Random, thorough: bool) -> Iterator[Case]:
+        """key "twin" (not read by the model op): further objects of the class exist while the setters are called - see
+        Bystanders. CFDP classes: every caller direction x large file flag (the classes force their direction; the file
+        flag setters change it) x CRC flag"""
+        modes = ["before", "after", "both"]
+        k = rng.randrange(3)
+        for name, g in GENS.items():
+            kind = KINDS[name]
+            flag_setter = name in ("nak", "ka")
+            if flag_setter:
+                confs = [{"crc": c, "large": lg, "dir": d} for d in (0, 1) for lg in (0, 1) for c in (0, 1)]
+            elif kind.shares_conf:
+                confs = [{"crc": rng.randint(0, 1), "large": lg, "dir": d} for d in (0, 1) for lg in (0, 1)]
+            else:
+                confs = [{}, {}]
+            if thorough:
+                confs = confs * 3
+            for fx in confs:
+                a = g.init(rng, via=thorough and rng.random() < 0.2, **{x: v for x, v in fx.items() if x != "dir"})
+                if "dir" in fx:
+                    a["dir"] = fx["dir"]
+                pool = g.pool(rng, a)
+                if not (flag_setter or thorough):
+                    pool = [s for s in pool if not _has_big_fill(s)]     # quick: the model is slow on 64 KiB arguments
+                seqs = [[s] for s in pool]
+                if flag_setter or thorough:
+                    seqs += [list(c) for c in itertools.product(pool, repeat=2)]
+                for _ in range(6 if thorough else 2):
+                    seqs.append([g.step(rng, a, rng.choice([0.0, 0.0, 0.08]) if thorough else 0.0) for _ in range(rng.randint(2, 8))])
+                for steps in seqs:
+                    c = seq_case(name, a, steps, "bystander")
+                    c.op["twin"] = modes[k % 3]
+                    k += 1
+                    yield c
 
     def input_args(self, kind: str, rng: random.Random) -> Dict[str, Any]:
         mutable = rng.random() < 0.5
